@@ -50,13 +50,22 @@ import functools  # noqa: E402
 
 
 @functools.lru_cache(maxsize=None)
+def _tiny_zip():
+    import io
+    buf = io.BytesIO()
+    with zipfile.ZipFile(buf, "w") as z:
+        z.writestr(zipfile.ZipInfo("inside.txt", date_time=(2020, 1, 1, 0, 0, 0)), b"zipped payload")
+    return buf.getvalue()
+
+
 def _files(fmt):
     """relative path -> bytes (None = directory); deterministic binary content (cached: treat as read-only)"""
     def blob(tag, n):
         return bytes((i * 31 + len(tag) * 7 + ord(tag[0])) % 256 for i in range(n))
     if fmt == "raw":
         return {"a.bin": blob("a", 300), "d1": None, "d1/b.bin": blob("b", 70000), "d1/d2": None, "d1/d2/c.txt": b"hello\n",
-                "d1/empty.dat": b"", "e": None, "d1/clip_002..wav": blob("w", 90)}  # '..' inside a file name is legal
+                "d1/empty.dat": b"", "e": None, "d1/clip_002..wav": blob("w", 90),  # '..' inside a file name is legal
+                "attachment.zip": _tiny_zip()}  # ONE zip among many plain files: a plain folder, copied as it is (the zip stays a zip)
     if fmt == "zip":
         return {"top.bin": blob("t", 500), "k": None, "k/x.bin": blob("x", 66000), "k/y.txt": b"y", "k/Dr..Who_s01.wav": blob("d", 50)}
     if fmt == "zips":
@@ -188,11 +197,11 @@ def _send(req):
     return res
 
 
-def _call_in_child(root, scn, kill_at=None, workers=0):
+def _call_in_child(root, scn, kill_at=None, workers=0, fail_at=None):
     """runs the real function in a forked child (of the light fork server) under the audit monitor.
     returns dict(status=returned|killed|raised, result=..., events=[(name, paths, mutating)], err=str)"""
     g, l, rel, dst = _paths(root, scn)
-    req = {"root": str(root), "fn": scn["fn"], "g": str(g), "l": str(l), "rel": rel, "kill_at": kill_at, "workers": workers}
+    req = {"root": str(root), "fn": scn["fn"], "g": str(g), "l": str(l), "rel": rel, "kill_at": kill_at, "workers": workers, "fail_at": fail_at}
     srv = _get_server()
     srv.stdin.write(json.dumps(req) + "\n")
     srv.stdin.flush()
@@ -212,6 +221,10 @@ def _scenarios():
             for rel in (None, "sub/ds"):
                 for parent in (True, False):
                     out.append({"fn": fn, "fmt": fmt, "rel": rel, "parent": parent})
+    # source / destination names with glob metacharacters and spaces ("audioset[2M]", "fold [1-4]")
+    for fn in ("folder", "imagefolder"):
+        for fmt in ("raw", "zip", "zips"):
+            out.append({"fn": fn, "fmt": fmt, "rel": "sub/ds[2M] v*1", "parent": True, "glob": True})
     for fn in ("folder", "imagefolder"):
         for fmt, sfmt in (("raw", "zip"), ("zip", "raw"), ("zips", "raw")):
             out.append({"fn": fn, "fmt": fmt, "rel": "sub/ds", "parent": True, "sibling": sfmt})
@@ -246,7 +259,8 @@ def gen_cases(run):
     scns = _scenarios()
     if run.tier == "quick":
         # quick: half of the path variants (plain destination with existing parent; nested relative_path with missing parents)
-        scns = [s for s in scns if ((s["rel"] is None) == s["parent"] and not s.get("sibling")) or (s.get("sibling") and s["fn"] == "folder")]
+        scns = [s for s in scns if ((s["rel"] is None) == s["parent"] and not s.get("sibling") and not s.get("glob")) or (s.get("sibling") and s["fn"] == "folder")
+                or (s.get("glob") and (s["fn"], s["fmt"]) in (("folder", "zips"), ("folder", "zip"), ("imagefolder", "raw")))]
     rng = run.rng
     shard_i, shard_n = run.shard if run.shard else (0, 1)
     idx = 0
@@ -270,6 +284,12 @@ def gen_cases(run):
         for k in range(1, n + 1):
             if mine():
                 yield {"scn": scn, "kills": [k], "n": n}
+        # an operation fails with an I/O error instead of the process dying (full disk, flaky network file system): the call may raise,
+        # but it must not report - now or later - a copy it did not finish
+        ks = list(range(1, n + 1)) if run.tier == "thorough" else sorted(rng.sample(range(1, n + 1), min(n, 6)))
+        for k in ks:
+            if mine():
+                yield {"scn": scn, "kills": [k], "n": n, "fail": True}
         # chains of deaths
         small = scn["fmt"] == "zip" and scn["rel"] is None
         if scn["fmt"] == "zips_half" and (scn["rel"] is not None or not scn["parent"]):
@@ -399,7 +419,11 @@ def run_case(run, spec):
         # ---- interrupted attempts
         shapes = []
         for j, k in enumerate(spec["kills"]):
-            res = _call_in_child(root, scn, kill_at=k, workers=workers)
+            if spec.get("fail"):
+                res = _call_in_child(root, scn, fail_at=k, workers=workers)   # the k-th file-system operation fails with EIO
+                run.count("io_error_injections")
+            else:
+                res = _call_in_child(root, scn, kill_at=k, workers=workers)
             run.count("fs_events_observed", len(res["events"]))
             snap = _snapshot(dst)
             shape = _state_shape(snap, expected)
